@@ -1,5 +1,6 @@
 import JoblibProofs.Lemmas.Lru
 import JoblibProofs.Lemmas.StoreLimits
+import JoblibProofs.Lemmas.StoreLimitsOps
 /-!
 # C18 — reduce_size enforces every limit by evicting the minimal LRU prefix
 
@@ -565,6 +566,96 @@ theorem satisfied_store_untouched (t : Dir) (bytes : Option BytesArg) (b items d
     rw [hb]
     simp only [satisfied_evicts_nothing (getItems t) _ hsat, enforceLoop]
 
+/-! ## What an observer sees of the deletion loop: interruption after `k` removals; histories on one `Memory` object
+
+"Entries are evicted strictly from least to most recently accessed" is a statement about the ORDER of the removals,
+which a completed `reduce_size` does not show (the selected set alone fixes the final state) but an interruption
+does: Ctrl-C (`KeyboardInterrupt`), `MemoryError`, an exception of a custom backend's `clear_location` that is no
+`OSError`, a crash. `reduceSizeInt … (some k)` is `reduce_size` whose `clear_location` call number `k` raises such
+an exception. -/
+
+/-- INTERRUPTION. Whenever the deletion loop is left by an exception at call number `k` — for EVERY `k`, every tree
+without nested hash directories, every limits, every `OSError` fault pattern of the calls before — exactly the `k`
+least recently used entries are gone: the inventory left is the LRU order without its first `k` entries, and the
+calls started are the first `k + 1` entries of that order. What has been removed so far is always a prefix of the LRU
+order (and, by `deleted_is_prefix` / `minimal`, a prefix of the minimal one: `k` is below the selection's length). -/
+theorem interrupted_eviction_is_lru_prefix (t t' : Dir) (bytes : Option BytesArg) (b items deadline : Option Int)
+    (raises : Path → Bool) (k : Nat) (calls : List Path) (hb : resolveBytes bytes = .ok b) (hsep : Separated t)
+    (h : reduceSizeInt true bytes items deadline raises (some k) t = .interrupted t' calls) :
+    k < (itemsToDelete (getItems t) ⟨b, items, deadline⟩).length ∧
+    calls = ((sortByAccess (getItems t)).take (k + 1)).map (·.id) ∧
+    (getItems t').Perm ((sortByAccess (getItems t)).drop k) := by
+  obtain ⟨hne, hpw⟩ := separated_items hsep
+  unfold reduceSizeInt at h
+  simp only [Bool.not_true, Bool.false_eq_true, if_false] at h
+  split at h
+  · cases h
+  · unfold enforceStoreLimitsInt at h
+    simp only [hb, enforceLoopInt_eq, List.nil_append] at h
+    obtain ⟨r, hr⟩ := itemsToDelete_prefix (getItems t) ⟨b, items, deadline⟩
+    generalize hsel : itemsToDelete (getItems t) ⟨b, items, deadline⟩ = sel at h hr ⊢
+    by_cases hk : k < sel.length
+    · simp only [hk, decide_true] at h
+      injection h with h1 h2
+      have htk : (sortByAccess (getItems t)).take k = sel.take k := by
+        rw [← hr, List.take_append_of_le_length (Nat.le_of_lt hk)]
+      have htk1 : (sortByAccess (getItems t)).take (k + 1) = sel.take (k + 1) := by
+        rw [← hr, List.take_append_of_le_length hk]
+      refine ⟨hk, by rw [htk1]; exact h2.symm, ?_⟩
+      have hmem : ∀ s ∈ sel.take k, s ∈ getItems t := fun s hs =>
+        (sortByAccess_perm (getItems t)).mem_iff.mp (by rw [← hr]; exact List.mem_append_left _ (List.mem_of_mem_take hs))
+      rw [← h1, getItems_clearAll _ _ (fun s hs => hne s (hmem s hs))]
+      refine filter_keeps_perm_split (getItems t) (sel.take k) _ ?_ hpw
+      rw [← htk]; exact List.take_append_drop k _
+    · simp only [hk, decide_false] at h
+      cases h
+
+/-- Every `k` below the number of selected entries IS an interruption point (the theorem above is not vacuous), and
+an interruption scheduled later never happens: the call completes exactly as `reduce_size` does. -/
+theorem interruption_points (t : Dir) (bytes : Option BytesArg) (b items deadline : Option Int)
+    (raises : Path → Bool) (k : Nat) (hb : resolveBytes bytes = .ok b)
+    (hlim : (bytes.isNone && items.isNone && deadline.isNone) = false) :
+    (k < (itemsToDelete (getItems t) ⟨b, items, deadline⟩).length →
+      ∃ t' calls, reduceSizeInt true bytes items deadline raises (some k) t = .interrupted t' calls) ∧
+    ((itemsToDelete (getItems t) ⟨b, items, deadline⟩).length ≤ k →
+      reduceSizeInt true bytes items deadline raises (some k) t
+        = .ofOutcome (reduceSize true bytes items deadline raises t)) := by
+  unfold reduceSizeInt reduceSize enforceStoreLimitsInt enforceStoreLimits
+  simp only [Bool.not_true, Bool.false_eq_true, if_false, hlim, hb, enforceLoopInt_eq, enforceLoop_eq,
+    List.nil_append]
+  constructor
+  · intro hk
+    simp only [hk, decide_true]
+    exact ⟨_, _, rfl⟩
+  · intro hk
+    have hk' : ¬ k < (itemsToDelete (getItems t) ⟨b, items, deadline⟩).length := by omega
+    simp only [hk', decide_false, OutcomeI.ofOutcome]
+    rw [List.take_of_length_le hk, List.take_of_length_le (by omega)]
+
+/-- HISTORIES. `reduce_size` is a function of the store AS IT IS NOW: after ANY history on the same `Memory` object —
+earlier `reduce_size` calls (completed, faulted or interrupted) interleaved with arbitrary changes of the tree made
+behind its back (`Op.change f`: entries recomputed with another size after `MemorizedFunc.clear()` or a code change,
+rewritten in place by `MemorizedFunc.call()`, removed by another `Memory` object or by hand, read, added) — a
+`reduce_size` call is the call on the tree the history left, so its guarantees are about THAT tree's inventory:
+the limits hold for the sizes and access times the directory has now, and the evicted entries are the minimal prefix
+of the CURRENT LRU order. (In the model this is immediate — the model's only state is the tree, as the code's is:
+`get_items` walks and stats the directory at every call; the harness ties it to the code over such histories.) -/
+theorem reduce_size_history_independent (h : List Op) (t0 t' : Dir) (bytes : Option BytesArg)
+    (b items deadline : Option Int) (raises : Path → Bool) (calls : List Path)
+    (hb : resolveBytes bytes = .ok b) (hsep : Separated (runOps h t0))
+    (hr : reduceAfter h t0 bytes items deadline raises none = .returned t' calls) :
+    reduceSize true bytes items deadline raises (runOps h t0) = .returned t' calls ∧
+    (WF ⟨b, items, deadline⟩ → Sat (getItems t') ⟨b, items, deadline⟩) ∧
+    calls = ((sortByAccess (getItems (runOps h t0))).take calls.length).map (·.id) ∧
+    (getItems t').Perm ((sortByAccess (getItems (runOps h t0))).drop calls.length) ∧
+    ∀ k, k < calls.length → ¬ Sat ((sortByAccess (getItems (runOps h t0))).drop k) ⟨b, items, deadline⟩ := by
+  unfold reduceAfter at hr
+  rw [reduceSizeInt_none] at hr
+  have hr' := ofOutcome_returned hr
+  obtain ⟨h1, h2, h3⟩ := reduce_size_evicts_minimal_lru_prefix _ t' bytes b items deadline raises calls hb hsep hr'
+  exact ⟨hr', fun hwf => reduce_size_limits_hold_separated _ t' bytes b items deadline raises calls hb hwf hsep hr',
+    h1, h2, h3⟩
+
 /-! Non-vacuity: concrete inventories meet the hypotheses and exercise every limit. -/
 def ex : List (Item Nat) := [⟨0, 10, 300⟩, ⟨1, 0, 100⟩, ⟨2, 7, 100⟩, ⟨3, 5, 200⟩]
 example : WF ⟨some 12, some 3, some 150⟩ := by
@@ -624,5 +715,19 @@ example : memstrToBytes "1.5K" = .ok 1536 ∧ memstrToBytes "-1.5K" = .ok (-1536
     memstrToBytes "1.4990234375K" = .ok 1535 ∧ memstrToBytes "-0K" = .ok 0 := by decide
 example : callsOf (reduceSize true none none none (fun _ => true) exStore) = some [] := by decide
 example : callsOf (reduceSize false none (some 0) none (fun _ => true) exStore) = some [] := by decide
+
+/-- Interruption at call 1 of 3 (`'0.12K'`, the first call raising `OSError`): exactly the least recently used entry
+is gone; at call 3 or later the call completes. A history: the entry `f/H2` is rewritten with another size behind the
+object's back between two calls — the second call works from the new size. -/
+def interruptedAt : OutcomeI → Option (List Path × List (Item Path))
+  | .interrupted t c => some (c, getItems t)
+  | _ => none
+example : interruptedAt (reduceSizeInt true (some (.str "0.12K")) none none (fun p => p == ["f", H2]) (some 1) exStore)
+    = some ([["f", H2], ["g", H1]],
+        [⟨["f", H1], 120, 300⟩, ⟨["g", H1], 300, 200⟩, ⟨["g", H2 ++ "_tmp"], 7, 250⟩]) := by decide
+example : interruptedAt (reduceSizeInt true (some (.str "0.12K")) none none (fun _ => false) (some 3) exStore) = none := by
+  decide
+example : (getItems (runOps [.reduce none (some 3) none (fun _ => false) none, .change (fun _ => exStore)] exStore)).length
+    = 4 := by decide
 
 end C18
